@@ -1,12 +1,17 @@
 #!/bin/bash
-# One-time setup after a fresh restore, offline: build the Lean project (proofs + model driver)
-# and warm the Go build cache. Nothing is fetched.
+# One-time setup after a fresh restore, offline: build the Lean project (model driver, every property's
+# theorems, the source-facts spec), the fact extractor, and warm the Go build cache. Nothing is fetched.
 set -e
-cd /verif
+cd "$(dirname "$0")/.."
+ROOT=$(pwd)
 export GOFLAGS=-mod=mod GOPROXY=off GOSUMDB=off GOTOOLCHAIN=local
 mkdir -p build work evidence replays
-(cd lean && lake build NodisVerif driver 2>&1 | tail -3)
+(cd lean && lake build NodisVerif driver NodisVerif.Spec.SourceFacts 2>&1 | tail -3)
+# the property theorems (about 6 minutes from clean on 16 cores; every check re-runs `lake build` for its
+# own module, which is then a no-op unless a source changed)
+(cd lean && lake build $(for i in 01 02 03 04 05 06 07 08 09 10 11 12 13 14 15 16 17 18 19 20; do echo NodisVerif.Props.C$i; done) 2>&1 | tail -2)
 cp /repo/go.sum harness/go.sum
-(cd harness && go build -tags verif -o /verif/build/harness . )
-(cd harness && CGO_ENABLED=0 go build -tags verif,faketime -o /verif/build/harness_ft . ) || true
+(cd harness && go build -tags verif -o "$ROOT/build/harness" . )
+(cd harness && CGO_ENABLED=0 go build -tags verif,faketime -o "$ROOT/build/harness_ft" . ) || true
+(cd extract && go build -o "$ROOT/build/extract" . )
 echo setup-done
